@@ -40,8 +40,8 @@ ASSUMPTIONS = [
     'parameters only on int/float/scaled parameters',
     'check_<p> hooks and driver functions are user code: hooks are arbitrary functions of (value, cache) in the theorems and the '
     'three generated shapes in the correspondence; the driver follows a per-request script; neither touches the module otherwise',
-    'a stored value whose nested struct lacks an optional member fails to export (finding nested-optional-struct-stored-then-error); '
-    'the model reproduces it, the theorems carry the exception',
+    'export_value of a validated value does not fail (since fix 45926fd also for nested structs lacking optional members); the model '
+    'keeps the failing branch (store, then WrongType) and C04_error_clean carries it as explicit exception',
     'exported names are unique within the module (accessiblename2attr is a dict; the model takes the first match)',
 ]
 
